@@ -36,12 +36,13 @@ Proof. vm_compute. split; reflexivity. Qed.
 (* C19: the order-sensitive uses of Python sets are exactly the ones the order-independence theorems account for:
    - RegRefTransform.__init__ : the listing order of a transform's registers (TransformP.transform_order_irrelevant)
    - BlackbirdProgram.__call__ : arguments of a lambdified function, passed by NAME (order immaterial)
-   - _format_value : builds a set of names (membership only)
+   - _format_value : builds a set of names, then the subset of them that are not register references (membership only, twice)
    - match_template : a single-element set (at most one parameter per argument is enforced just before)
    - to_DiGraph : the order in which wires are visited changes only insertion order of nodes/edges, not the graph *)
 Lemma set_sites_ok :
   set_sites = ["listener.py:RegRefTransform.__init__:list(expr.free_symbols)";
                "program.py:BlackbirdProgram.__call__:list(v.free_symbols)";
+               "program.py:_format_value:for(names)";
                "program.py:_format_value:for(v.free_symbols)";
                "utils.py:match_template:solve(var)";
                "utils.py:match_template:str(var)";
